@@ -306,7 +306,7 @@ macro_rules! gluefull {
     };
 }
 gluefull!(rs_gluefull_sq52, 206, Square52, 14, 204);
-gluefull!(rs_gluefull_sq10, 8, Square10, 0, 3);
+gluefull!(rs_gluefull_sq10, 14, Square10, 0, 3);
 gluefull!(rs_gluefull_r16x48, 64, Rect16x48, 29, 49);
 glueh!(rs_glue_sq52, 206, Square52, 14, 204);
 glueh!(rs_glue_sq64, 282, Square64, 15, 280);
@@ -318,5 +318,67 @@ glueh!(rs_glue_sq104, 818, Square104, 20, 816);
 glueh!(rs_glue_sq120, 1052, Square120, 21, 1050);
 glueh!(rs_glue_sq132, 1306, Square132, 22, 1304);
 glueh!(rs_glue_sq144, 1560, Square144, 23, 1558);
-glueh!(rs_glue_sq10, 8, Square10, 0, 3);
+glueh!(rs_glue_sq10, 14, Square10, 0, 3);
 glueh!(rs_glue_r16x48, 64, Rect16x48, 29, 49);
+
+
+// Light variant for the largest sizes: the stub does not walk the block, it
+// records the iterator's exact size hint (StepBy over a range / slice iterator
+// reports its length exactly) and the first element.
+
+fn stub_ecc_block_light<T: Iterator<Item = u8>>(mut data: T, g: &[u8], ecc: &mut [u8]) {
+    let (lo, hi) = data.size_hint();
+    assert!(ecc.len() == g.len());
+    ecc[0] = (lo & 0xFF) as u8;
+    ecc[1] = (lo >> 8) as u8;
+    ecc[2] = match data.next() {
+        Some(a) => a,
+        None => 0,
+    };
+    ecc[3] = if hi == Some(lo) { 1 } else { 0 };
+}
+
+fn glue_light<const N: usize>(size: SymbolSize, idx: usize) {
+    let t = TABLE[idx];
+    assert!(t.data == N);
+    let b = t.blocks;
+    let mut data = [0u8; N];
+    let head: [u8; 10] = kani::any();
+    let mut i = 0;
+    while i < 10 {
+        if i < b {
+            data[i] = head[i];
+        }
+        i += 1;
+    }
+    let ecc = encode_error(&data, size);
+    assert!(ecc.len() == t.ecc);
+    let mut q = 0;
+    while q < 10 {
+        if q < b {
+            // number of data codewords of block q: indices q, q+B, ... below N
+            let cnt = (N - q + b - 1) / b;
+            assert!(ecc[q] == (cnt & 0xFF) as u8 && ecc[q + b] == (cnt >> 8) as u8);
+            assert!(ecc[q + 2 * b] == head[q]);
+            assert!(ecc[q + 3 * b] == 1);
+        }
+        q += 1;
+    }
+}
+
+macro_rules! gluelight {
+    ($name:ident, $unwind:expr, $size:ident, $idx:expr, $n:expr) => {
+        #[kani::proof]
+        #[kani::unwind($unwind)]
+        #[kani::stub(ecc_block, stub_ecc_block_light)]
+        fn $name() {
+            assert!(VARIANTS[$idx] == SymbolSize::$size);
+            glue_light::<$n>(SymbolSize::$size, $idx);
+        }
+    };
+}
+gluelight!(rs_gluelight_sq144, 632, Square144, 23, 1558);
+gluelight!(rs_gluelight_sq132, 508, Square132, 22, 1304);
+gluelight!(rs_gluelight_sq120, 420, Square120, 21, 1050);
+gluelight!(rs_gluelight_sq104, 348, Square104, 20, 816);
+gluelight!(rs_gluelight_sq64, 124, Square64, 15, 280);
